@@ -558,6 +558,44 @@ def c0_table():
     return out
 
 
+def leaf_roundtrip(ck, rng, n):
+    """C04_reopen_text_leaf is about lxml_text_escape and the parser model: tie both to the real thing.  For strings
+    of XML characters (white space at the edges, CR / CR LF / TAB runs, markup characters, astral code points):
+    (1) what lxml's serialiser writes for the text of an a:t equals the model's escaped text; (2) python-pptx's parser
+    reads that serialisation back as the string, and the model says the same."""
+    from lxml import etree
+    from pptx.oxml import parse_xml
+    A = "http://schemas.openxmlformats.org/drawingml/2006/main"
+    alphabet = [" ", " ", "\t", "\n", "\r", "\r\n", "a", "b", "<", ">", "&", "]]>", "&amp;", "&#13;", "\u00e9", "\U0001F600", "_x000D_", "\x7f", "\u2028"]
+    strs = ["", " ", "\r", "\r\n", " \rX", "\r\n\t\r\nX", "  ", "\n", "\t", " a ", "\r" + 299 * " " + "\rX", 300 * " " + "\r"]
+    while len(strs) < n:
+        strs.append("".join(rng.choice(alphabet) for _ in range(rng.randint(0, 12))))
+    outs = run_model("C04", [["lx", s] if s else ["lx"] for s in strs])
+    diffs, first = 0, None
+    for s, mo in zip(strs, outs):
+        el = etree.Element("{%s}t" % A, nsmap={"a": A})
+        el.text = s
+        xml = etree.tostring(el, encoding="unicode")
+        inner = "" if xml.endswith("/>") else xml[xml.index(">") + 1: xml.rindex("</")]
+        back = parse_xml(xml).text or ""
+        f = mo.split("|")
+        m_esc = "".join(chr(int(t)) for t in f[0].split(" ") if t) if f else None
+        m_back = ("".join(chr(int(t)) for t in f[1][3:].split(" ") if t) if len(f) > 1 and f[1].startswith("ok:") else None)
+        ck.count(("lx", s), bool(s.strip() != s or "\r" in s or any(c in s for c in "<&>")), "text-leaf-serialise-parse")
+        if back != s:
+            ck.violation("reopen-text-leaf", "the text %r of an a:t is %r after lxml serialisation and python-pptx's parser" % (s, back),
+                         {"entry_point": "lxml serialise + pptx.oxml.parse_xml (save / re-open of one a:t)", "input": s, "impl_outcome": back})
+        if m_esc != inner or m_back != back:
+            diffs += 1
+            first = first or (s, inner, m_esc, back, m_back)
+    if diffs:
+        ck.violation("correspondence-leaf", "model (lxml_text_escape + Escape.lex_text) and lxml / parse_xml disagree on %d of %d strings, e.g. %r: "
+                     "serialised %r vs model %r, read back %r vs model %r" % ((diffs, len(strs)) + first),
+                     {"theorem_or_correspondence": "correspondence TextRun.run_lx ~ libxml2 text serialiser + oxml parser (C04_reopen_text_leaf is about the model only)",
+                      "input": first[0]}, concrete=False)
+    return {"strings": len(strs), "diffs": diffs}
+
+
 def run(ck, tier, rng):
     ck.build = coq_build("C04")
     scratch = tempfile.mkdtemp(prefix="c04-")
@@ -600,6 +638,8 @@ def run(ck, tier, rng):
                              "the oracle found no input on which the property itself fails" % (diffs, list(first[0]), first[1], first[2]),
                              {"theorem_or_correspondence": "correspondence Text.v ~ pptx/text/text.py + pptx/oxml/text.py (theorems C04_* are about the model only)",
                               "input": list(first[0]), "model_outcome": first[1], "impl_outcome": first[2]}, concrete=False)
+        # leaf level of save / re-open: libxml2's serialiser and python-pptx's parser against the model (op lx)
+        leaf = leaf_roundtrip(ck, rng, 1500 if tier == "quick" else 20000) if ck.build.ok else {}
         ck.broken_build(oracle_found_concrete=len(ck.violations) > 0)
         return ck.finish(
             rule="every string of length <= 3 over {a, space, LF, VT, BEL, TAB} at each of the four levels; named strings from the property text; "
@@ -610,7 +650,7 @@ def run(ck, tier, rng):
                  "non-trivial = an assignment whose string has a control, markup, underscore, astral or edge-blank character onto a prior body with >= 2 paragraphs or properties/fields/breaks" % cycles,
             trusted_base=TB, assumptions=ASSUME,
             extra={"correspondence_diffs": diffs, "exhaustive": False, "save_reopen_cycles": cycles, "non_xml_char_behaviour": c0,
-                   "c0_readback_run_para_frame": c0_readback},
+                   "c0_readback_run_para_frame": c0_readback, "text_leaf_serialise_parse": leaf},
         )
     finally:
         shutil.rmtree(scratch, ignore_errors=True)
